@@ -16,7 +16,7 @@ pub struct C10Sim;
 pub fn node_model_line(op: &str) -> Option<String> {
     let t: Vec<&str> = op.split_whitespace().collect();
     match t.as_slice() {
-        ["al", ..] | ["ks", ..] | ["ksdup", ..] | ["newch", ..] | ["forget", ..] | ["restart"] => Some(op.to_string()),
+        ["al", ..] | ["ks", ..] | ["ksdup", ..] | ["newch", ..] | ["forget", ..] | ["sinv", ..] | ["restart"] => Some(op.to_string()),
         // `world backup`: losing the main store and recovering from the backup is a restart for the model
         ["mainloss"] => Some("restart".to_string()),
         // the heartbeat prunes old stubs, which depends on the tracker height: block requests are in the model too
@@ -52,7 +52,7 @@ pub fn node_digest(sim: &Sim) -> String {
         ptrs.dedup();
         ptrs.len()
     };
-    format!("al=[{}] inv={} hwm={} chans={}", al.join(","), st.invoices.len(), st.dbid_high_water_mark, nchan)
+    format!("al=[{}] inv={} iss={} hwm={} chans={}", al.join(","), st.invoices.len(), st.issued_invoices.len(), st.dbid_high_water_mark, nchan)
 }
 
 impl Group for C10Sim {
@@ -117,6 +117,9 @@ impl Group for C10Sim {
             c("world perm|newch 2|newch 3|newch 5|newch 4|newch 3|forget 3|newch 4"),
             // a stale counterparty commitment number with changed HTLCs is refused late
             c("scp 0 0|scp 0 1|scp -1 2|scp -1 5|cpr 0 g|scp -2 1"),
+            // a full map of aged stubs: a creation refused for its retired id (and one refused for the full map) must
+            // not collect the garbage on the way
+            c("newch 5|forget 1|newch 6|newch 7|newch 8|blkn 7|newch 3|newch 9|hb|newch 9|newch 5"),
             // re-signing the funding transaction: accepted, then refused at the signing step
             c("osign g|osign b|vh 0 g 0|rv 0|osign g"),
         ]
@@ -124,6 +127,11 @@ impl Group for C10Sim {
     fn gen_case(&self, rng: &mut Rng, tier: Tier) -> Vec<String> {
         let len = rng.range(6, if tier == Tier::Quick { 14 } else { 30 }) as usize;
         let mut ops = gen_ops(rng, len);
+        // `osign g` rewrites the node entry, which the node-request model does not follow; issued invoices (`sinv`) are
+        // the one thing that entry makes durable late: keep the two apart in model-compared cases
+        if ops.iter().any(|o| o.starts_with("sinv")) {
+            for o in ops.iter_mut() { if o.starts_with("osign") { *o = "hb".to_string(); } }
+        }
         if rng.chance(1, 4) { ops.insert(0, "world perm".to_string()); }
         else if rng.chance(1, 10) { ops.insert(0, "world nocp".to_string()); }
         else if rng.chance(1, 6) {
